@@ -315,6 +315,12 @@ def run_cases(cases: List[Case], seed: int, jobs: int, recycle: int = 40) -> Lis
     _SEED = seed
     if not cases:
         return []
+    if os.environ.get("VERIF_TIER_ACTIVE", "") == "thorough":
+        # the thorough tier of one property is sized for about 40 min of wall time on the configured number of workers even if
+        # every case ran into its budget: a case that does is reported incomplete (never as success)
+        cap = max(300.0, jobs * 2400.0 / len(cases))
+        for c in cases:
+            c.timeout = min(c.timeout, cap)
     _start_cross_check(os.environ.get("VERIF_TIER_ACTIVE", ""), len(cases))
     try:
         return _run_cases(cases, seed, jobs, recycle)
@@ -327,7 +333,11 @@ def _run_cases(cases: List[Case], seed: int, jobs: int, recycle: int = 40) -> Li
         return [run_case(i) for i in range(len(cases))]
     ctx = mp.get_context("fork")
     with ctx.Pool(min(jobs, len(cases)), maxtasksperchild=recycle) as pool:
-        res = pool.map(run_case, range(len(cases)), chunksize=1)
+        res = []
+        for r in pool.imap(run_case, range(len(cases)), chunksize=1):
+            res.append(r)
+            if os.environ.get("VERIF_PROGRESS"):
+                print("[%s] done %d/%d %s %.0fs %s" % (time.strftime("%H:%M:%S"), len(res), len(cases), r.get("name"), r.get("wall_s", 0), r.get("status", "")), file=sys.stderr, flush=True)
     return res
 
 
